@@ -419,7 +419,7 @@ func (g *Target) Cdc() string {
 }
 
 type Stmt struct {
-	Op     string // let assign swap append if iflet while for return break continue expr destroy
+	Op     string // let assign swap append if iflet while for return break continue expr destroy guard guardlet
 	Ann    *Ty    // let annotation (nil = inferred)
 	E      *Expr
 	G      *Target
@@ -429,6 +429,17 @@ type Stmt struct {
 }
 
 func blockCoq(b []*Stmt) string {
+	// `guard let x = e else {..}` scopes x over the REST of the block: in the Coq syntax the rest is
+	// nested inside the statement
+	for i, st := range b {
+		if st.Op == "guardlet" {
+			s := "(BCons (SGuardLet " + st.E.Coq() + " V " + blockCoq(st.B1) + " " + blockCoq(b[i+1:]) + ") BNil)"
+			for j := i - 1; j >= 0; j-- {
+				s = "(BCons " + b[j].Coq() + " " + s + ")"
+			}
+			return s
+		}
+	}
 	s := "BNil"
 	for i := len(b) - 1; i >= 0; i-- {
 		s = "(BCons " + b[i].Coq() + " " + s + ")"
@@ -471,6 +482,8 @@ func (s *Stmt) Coq() string {
 		return "(SExpr " + s.E.Coq() + ")"
 	case "destroy":
 		return "(SDestroy " + s.E.Coq() + ")"
+	case "guard":
+		return "(SGuard " + s.E.Coq() + " " + blockCoq(s.B1) + ")"
 	}
 	panic("stmt op " + s.Op)
 }
@@ -539,6 +552,10 @@ func (s *Stmt) Cdc(ind string) string {
 		return ind + s.E.Cdc() + "\n"
 	case "destroy":
 		return ind + "destroy " + s.E.Cdc() + "\n"
+	case "guard":
+		return fmt.Sprintf("%sguard %s else {\n%s%s}\n", ind, s.E.Cdc(), blockCdc(s.B1, in2), ind)
+	case "guardlet":
+		return fmt.Sprintf("%sguard let v%d = %s else {\n%s%s}\n", ind, s.V, s.E.Cdc(), blockCdc(s.B1, in2), ind)
 	}
 	panic("stmt op " + s.Op)
 }
